@@ -58,6 +58,9 @@ func checkC13(c *Ctx) {
 	c13TaggedHash(c, prog, "C13-2")
 	c13Import(c, prog)
 	c13Invariant(c, prog, "C13-4")
+	// the key a verification uses stays the key that was imported: no exported method of the key types stores into the
+	// key or hands out its internal memory (rule shared with C18-5)
+	c18KeyMethods(c, prog, "C13-4")
 	c.R.Explanation = "SchnorrPublicKey.Verify is abstractly interpreted against the specifications of the lower layers with a symbolic key (P, px), message and signature of symbolic length: its result is equivalent, as a propositional formula, to the BIP-340 Verify predicate len(sig) = 64, r = sig[0:32] < p, s = sig[32:64] < n, R = s*G - e*P not the identity, y(R) even, Bytes(x(R)) = r with e = int(SHA256(SHA256(tag)||SHA256(tag)||r||px||msg)) mod n and tag = BIP0340/challenge (s = 0 is not rejected); schnorrTaggedHash is that construction for any number of inputs and the three tag constants are the BIP's; NewSchnorrPublicKey accepts exactly 32-byte strings whose 0x02-prefixed compressed decoding succeeds (C06: x < p on the curve, even root) and stores that point with a fresh copy of the bytes; SchnorrPublicKey / SchnorrPrivateKey objects are created only by the three constructors, each of which establishes: point non-identity with even y, xBytes = Bytes(x(point)), d*G = point."
 	c.R.Assumptions = []string{"C16 (double-scalar multiply), C06 (compressed decode, encoders), C01/C02 (canonical tests), C10 (ECDSA key invariants)", "SHA-256 from the standard library"}
 }
